@@ -311,6 +311,72 @@ func customiseLanguage(t *influxql.ParseTree) int {
 // replaced handlers, at every depth) and requires the default language to be
 // untouched. It runs before the rest of the workload, so a leak would also
 // show as wrong ASTs there.
+// c01SameChecksum: regexes, names and strings that differ but have the same
+// length and the same 32-bit checksum (FNV-1a, FNV-1, CRC-32), parsed one
+// after the other in this process: each statement carries what was written in
+// it, not what an earlier statement with the same fingerprint held.
+func c01SameChecksum(c *Ctx) {
+	r := c.R
+	const al = "abcdefghijklmnopqrstuvwxyz0123456789"
+	for ki, kind := range mon.SumKinds {
+		for fi, form := range []func(w string) string{
+			func(w string) string { return "h" + w },
+			func(w string) string { return "^host-" + w + "$" },
+		} {
+			a, b, ok := mon.Collide(kind, func(i int) string { return form(mon.Word(uint64(c.Seed)+uint64(ki*7+fi), i, 7, al)) }, 1<<20)
+			if !ok {
+				r.Count("same-checksum.no-pair-found", 1)
+				continue
+			}
+			for _, tmpl := range []string{"SELECT v FROM m WHERE h =~ /%s/", "SELECT v FROM /%s/", "SELECT \"%s\" FROM m", "SELECT v FROM m WHERE h = '%s'", "SELECT mean(v) FROM m GROUP BY /%s/"} {
+				for _, w := range []string{a, b, a} {
+					text := fmt.Sprintf(tmpl, w)
+					st, err, pan, pv, stk := parseQuery1(text)
+					r.Eval(1)
+					if pan || err != nil {
+						r.Violation("grammatical-statement-rejected", map[string]interface{}{"sub": "same-checksum", "input": text, "why": fmt.Sprint(err, pv), "stack": stk})
+						return
+					}
+					var seen []string
+					influxql.WalkFunc(st, func(n influxql.Node) {
+						switch x := n.(type) {
+						case *influxql.RegexLiteral:
+							if x != nil && x.Val != nil {
+								seen = append(seen, x.Val.String())
+							}
+						case *influxql.StringLiteral:
+							seen = append(seen, x.Val)
+						case *influxql.VarRef:
+							seen = append(seen, x.Val)
+						case *influxql.Measurement:
+							if x.Regex != nil && x.Regex.Val != nil {
+								seen = append(seen, x.Regex.Val.String())
+							}
+						}
+					})
+					other := a
+					if w == a {
+						other = b
+					}
+					found := false
+					for _, v := range seen {
+						if v == other {
+							r.Violation("ast-differs-from-denoted", map[string]interface{}{"sub": "same-checksum", "input": text, "why": fmt.Sprintf("the statement was written with %q; its AST holds %q, which an earlier statement held (the two texts have the same length and the same %s checksum)", w, other, kind)})
+							return
+						}
+						found = found || v == w
+					}
+					if !found {
+						r.Violation("ast-differs-from-denoted", map[string]interface{}{"sub": "same-checksum", "input": text, "why": fmt.Sprintf("the AST does not hold %q anywhere (values found: %q)", w, seen)})
+						return
+					}
+					r.Count("same-checksum.statements", 1)
+				}
+			}
+		}
+	}
+}
+
 func c01LanguageClone(c *Ctx) {
 	r := c.R
 	before := map[string]uintptr{}
@@ -396,6 +462,10 @@ func checkC01(c *Ctx) (string, bool, []string) {
 			c01LanguageClone(c)
 			return rule, false, assume
 		}
+		if sub == "same-checksum" {
+			c01SameChecksum(c)
+			return rule, false, assume
+		}
 		kind := replayInt(c, "kind_index")
 		mask := replayInt(c, "mask")
 		if strings.HasPrefix(sub, "random") {
@@ -407,6 +477,7 @@ func checkC01(c *Ctx) (string, bool, []string) {
 	}
 	// 0. API history: customised clones of the dispatch tree
 	c01LanguageClone(c)
+	c01SameChecksum(c)
 	// 0b. long flat statements
 	for _, n := range []int{70, 300, 2000, 12000, c.N(30000, 120000)} {
 		c01Long(c, n)
